@@ -110,7 +110,9 @@ struct Ctx {
         o["s"] = s;
         if (C.isConstQualified()) o["const"] = true;
         const Type* ty = C.getTypePtr();
-        if (ty->isBooleanType()) {
+        if (ty->isDependentType()) {
+            o["k"] = "dependent";
+        } else if (ty->isBooleanType()) {
             o["k"] = "bool";
             o["w"] = 1;
         } else if (const auto* ET = ty->getAs<EnumType>()) {
@@ -701,7 +703,7 @@ struct Visitor : RecursiveASTVisitor<Visitor> {
     bool VisitVarDecl(VarDecl* VD) {
         if (!VD->hasGlobalStorage()) return true;
         if (isa<ParmVarDecl>(VD)) return true;
-        if (VD->getDeclContext()->isDependentContext()) return true;
+        bool dependentCtx = VD->getDeclContext()->isDependentContext();
         if (!C.inRepo(VD->getLocation())) return true;
         if (!VD->isThisDeclarationADefinition() && !VD->isStaticDataMember()) return true;
         std::string id = C.varId(VD);
@@ -710,6 +712,7 @@ struct Visitor : RecursiveASTVisitor<Visitor> {
             if (const auto* FD = dyn_cast<FunctionDecl>(VD->getDeclContext())) fn = C.fnId(FD);
             id = "l:" + fn + "::" + VD->getNameAsString();
         }
+        if (dependentCtx) id = "t:" + id;
         bool isDef = VD->isThisDeclarationADefinition() == VarDecl::Definition;
         std::string key = id + (isDef ? "#def" : "#decl");
         if (!gEmittedGlobals.insert(key).second) return true;
@@ -721,6 +724,7 @@ struct Visitor : RecursiveASTVisitor<Visitor> {
         g["t"] = C.typeIdx(VD->getType());
         g["def"] = isDef;
         if (VD->isStaticLocal()) { g["local"] = true; g["fn"] = fn; }
+        if (dependentCtx) g["dependent"] = true;
         if (VD->isStaticDataMember()) g["member"] = true;
         if (VD->getType().isConstQualified()) g["const"] = true;
         if (VD->isConstexpr()) g["constexpr"] = true;
@@ -729,7 +733,7 @@ struct Visitor : RecursiveASTVisitor<Visitor> {
         if (const CXXRecordDecl* RD = VD->getType()->getBaseElementTypeUnsafe()->getAsCXXRecordDecl()) {
             if (RD->hasDefinition() && RD->hasMutableFields()) g["has_mutable"] = true;
         }
-        if (VD->hasInit() && VD->getInit() && !VD->getInit()->isValueDependent()) {
+        if (!dependentCtx && VD->hasInit() && VD->getInit() && !VD->getInit()->isValueDependent()) {
             g["has_init"] = true;
             if (VD->hasConstantInitialization()) g["const_init"] = true;
         }
